@@ -1,4 +1,5 @@
 import GwModel.Http
+import GwModel.HttpReq
 import GwModel.InjectLemmas
 import GwModel.Gen.Facts
 /-! # C15 — The HTTP endpoint never crashes and always speaks GraphQL-over-HTTP
@@ -44,5 +45,31 @@ example : (parseOperations (some .null)).toOption.isNone = true ∧
           (parseOperations (some (.obj [("Query", .str "{a}")]))).toOption = some ([⟨"{a}", "", ""⟩], false) ∧
           (parseOperations (some (.obj [("query", .num true)]))).toOption.isNone = true := by
   decide
+
+/-- the front of the handler (`Http.parseReq`: method, content type, GET parameters; tied by L2.http-front): a
+    request that does not parse into operations is refused with 405 or 422, one errors entry, nothing executed -/
+theorem refused_request (plannable execOK : OpReq → Bool) (r : Req) (status : Nat) (h : parseReq r = .error status) :
+    handleReq plannable execOK r = ⟨status, .single .errors, 0⟩ ∧ (status = 405 ∨ status = 422) :=
+  refused_request_contacts_nobody plannable execOK r status h
+
+/-- every response has one of the statuses 200, 400, 405, 422 -/
+theorem statuses (plannable execOK : OpReq → Bool) (r : Req) :
+    let s := (handleReq plannable execOK r).status
+    s = 200 ∨ s = 400 ∨ s = 405 ∨ s = 422 :=
+  status_classes plannable execOK r
+
+/-- a GET request whose `variables` is not a JSON object is refused whatever else it carries -/
+theorem get_bad_variables (plannable execOK : OpReq → Bool) (p : GetParams) (ct : CType) (body : Option JV)
+    (h : getVariablesOK p.variables = false) :
+    handleReq plannable execOK ⟨.get, ct, p, body⟩ = ⟨422, .single .errors, 0⟩ :=
+  get_with_bad_variables_is_refused plannable execOK p ct body h
+
+/-- non-vacuity -/
+example : handleReq (fun _ => true) (fun _ => true)
+    ⟨.get, .json, { query := some "{ me { id } }", variables := some (some (.arr [])), operationName := none,
+                    extensions := some (some (.obj [])) }, none⟩ = ⟨422, .single .errors, 0⟩ ∧
+  handleReq (fun _ => true) (fun _ => true)
+    ⟨.get, .json, { query := some "{ me { id } }", variables := some (some (.obj [])), operationName := none,
+                    extensions := none }, none⟩ = ⟨200, .single .data, 1⟩ := by decide
 
 end Props.C15
